@@ -875,6 +875,9 @@ class ExecExpr(ExecCore):
             else:
                 bn.append((c, base))
         for c, base in bn:
+            if isinstance(base.ty, Ty.TNone):
+                raises.append(self.raised(c, 'builtins:TypeError'))        # None is not subscriptable
+                continue
             if isinstance(n.slice, ast.Slice):
                 parts = [x for x in (n.slice.lower, n.slice.upper) if x is not None]
                 if n.slice.step is not None:
